@@ -2,6 +2,7 @@
 Helper lemmas about the skeleton walk `runSites` (C13).
 -/
 import Sqfs.Model.FailStop
+import Sqfs.Spec.FailStop
 namespace Sqfs.FailStop
 
 /-- trace extension by a site that succeeds -/
@@ -195,10 +196,13 @@ theorem runSites_clean (v : Variant) (c : Cfg) :
 
 def AllChecked (v : Variant) : Prop := ∀ s, reaction v s = .abort
 
+theorem beforeRealpath_allChecked : AllChecked Variant.beforeRealpath := by
+  intro s; cases s <;> simp [reaction, Variant.beforeRealpath]
+
 theorem fixed_allChecked : AllChecked Variant.fixed := by
   intro s; cases s <;> simp [reaction, Variant.fixed]
 
-/-- /repo as it is: the three result-checking repairs are in. -/
+/-- /repo as it is: every result of the skeleton is tested. -/
 theorem current_allChecked : AllChecked Variant.current := by
   intro s; cases s <;> simp [reaction, Variant.current]
 
@@ -382,9 +386,11 @@ theorem safe_phase (v : Variant) (c : Cfg) (sites : List Site) (fs : List Bool) 
   · exact Or.inl (runSites_absName v c _ _ _ _ _ _ _ h hs)
   · exact Or.inr (by rw [runSites_cwd v c _ _ _ _ _ _ _ hm h]; exact hs)
 
-/-- the body of the *repaired* `main`: the output name is made absolute before `pack_files` changes directory -/
-theorem safe_body_fixed (c : Cfg) (fs : List Bool) (t : Trace) (ok : Bool) (fs' : List Bool) (t' : Trace)
-    (h : runSites .fixed c 0 (bodySites .fixed c) fs t = (ok, fs', t')) : Safe t → Safe t' := by
+/-- the body of `main` once it resolves the output name (b5ce20d): the name is made absolute before `pack_files`
+    changes directory -/
+theorem safe_body_abs (v : Variant) (ha : v.outPathAbsolute = true) (c : Cfg) (fs : List Bool) (t : Trace) (ok : Bool)
+    (fs' : List Bool) (t' : Trace)
+    (h : runSites v c 0 (bodySites v c) fs t = (ok, fs', t')) : Safe t → Safe t' := by
   intro hs
   cases hp : c.packDir with
   | false => exact safe_phase _ _ _ _ _ _ _ _ (chdirPack_not_mem_body _ _ hp) h hs
@@ -395,7 +401,7 @@ theorem safe_body_fixed (c : Cfg) (fs : List Bool) (t : Trace) (ok : Bool) (fs' 
       have := chdirPack_not_mem_tarSites c.entries 0
       simp [bodySites, ht, this]
     | gensquashfs =>
-      simp only [bodySites, ht, hp, Variant.fixed, Bool.and_self, if_true, List.cons_append,
+      simp only [bodySites, ht, hp, ha, Bool.and_self, if_true, List.cons_append,
         List.nil_append] at h
       simp only [runSites] at h
       split at h
@@ -416,5 +422,28 @@ theorem allFalse_single (k : Nat) : allFalse k (single k) := by
 /-- … and one at `k` -/
 theorem single_getD (k : Nat) : (single k).getD k false = true := by
   simp [single, List.getD_eq_getElem?_getD]
+
+/-! ### what the specification's oracle would observe of a model run -/
+
+/-- The observation `Spec.Observed` of a packer run of the model: it cannot crash, exit status 0 or 1, a diagnostic
+    iff the reported site prints one (`diagOnFail`), the output file is there or not, and "same output as the
+    fault-free run" is equality of the whole result (step sequence). -/
+def observed (v : Variant) (c : Cfg) (fs : List Bool) : Spec.Observed :=
+  { crashed := false
+    exit0 := (run v c fs).status == 0
+    diagnostic := match (run v c fs).trace.failed with | some s => diagOnFail v s | none => false
+    packer := true
+    outputLeft := (run v c fs).out == .present
+    sameAsFaultFree := run v c fs == faultFree v c }
+
+/-- … and of a reader run: the results are "the same as fault-free" when the same sites ran and nothing handed to
+    stdio was lost. -/
+def observedReader (v : Variant) (c : RCfg) (fs : List Bool) : Spec.Observed :=
+  { crashed := false
+    exit0 := (runReader v c fs).status == 0
+    diagnostic := (runReader v c fs).trace.failed.isSome     -- every reader site prints (`diagOnFail _ s = true`)
+    packer := false
+    outputLeft := false
+    sameAsFaultFree := (runReader v c fs).trace == (runReader v c []).trace && !(runReader v c fs).stdoutLost }
 
 end Sqfs.FailStop
